@@ -537,7 +537,7 @@ def run(report, p):
     # ... and the list is never empty when the verification starts: every path to its use passes an append, or leaves an emptiness test on the non-empty side
     for ln in sorted(fmt_lists):
         inits = [n for n in walk_no_nested(dh.node) if isinstance(n, ast.Assign) and any(isinstance(t, ast.Name) and t.id == ln for t in n.targets)]
-        if not (len(inits) == 1 and isinstance(inits[0].value, ast.List) and not inits[0].value.elts):
+        if not (inits and all(isinstance(i_.value, ast.List) and not i_.value.elts for i_ in inits)):
             raise AnalysisError(f"verify -dh: the list of formats to verify `{ln}` is not built in this function from an empty list (built by a helper?)")
         adds = {g.node_for(c).id for c, tg in p.calls[dh.qual] if isinstance(c.func, ast.Attribute) and c.func.attr in ("append", "extend", "insert") and isinstance(c.func.value, ast.Name) and c.func.value.id == ln and not any(isinstance(a, (ast.For, ast.While)) for a in _anc(c))}
         uses = [g.node_for(n) for n in walk_no_nested(dh.node) if isinstance(n, ast.Call) and norm(n.func) == "sorted" and n.args and isinstance(n.args[0], ast.Name) and n.args[0].id == ln]
@@ -550,7 +550,7 @@ def run(report, p):
                     return False
             return True
 
-        reach = g.reachable_from([g.entry], avoid=adds, follow=follow)
+        reach = g.reachable_from([g.node_for(i_) for i_ in inits], avoid=adds, follow=follow)  # from every (re-)initialisation to the use
         for u in uses:
             r7.instance(dh, u.ast, f"verification starts from sorted({ln})")
             r7.check(u.id not in reach, dh, u.ast, f"the list of formats to verify can be empty when the verification starts (a path reaches `sorted({ln})` without any append): nothing is compared and verify -dh exits 0 whatever the tree looks like", construct=f"verify-format list {ln} can be empty")
